@@ -224,6 +224,22 @@ scn(name="mprod:ttm", func=TT + "mprod", props=("C18",), must_raise=True, min_re
     args=lambda it: (make_tt(it, "x", True, 2), [_factor(it, 0, 1), VInt(P.const(1))], {}), check=raises_check)
 
 
+# positions outside 0..d-1: some exception, never a result (C18, "out-of-range axis/index")
+scn(name="mprod:mode-out-of-range", func=TT + "mprod", props=("C18",), must_raise=True, any_exception=True, min_returns=0,
+    args=lambda it: (make_tt(it, "x", False, 3), [_factor(it, 0, 1), VInt(P.const(3))], {}), check=raises_check)
+scn(name="mprod:list-mode-out-of-range", func=TT + "mprod", props=("C18",), must_raise=True, any_exception=True, min_returns=0,
+    args=lambda it: (make_tt(it, "x", False, 3), [VList([_factor(it, 0, 0), _factor(it, 1, 2)]), VList([VInt(ZERO), VInt(P.const(4))])], {}), check=raises_check)
+scn(name="set_core:k-out-of-range", func=TT + "set_core", props=("C18",), must_raise=True, any_exception=True, min_returns=0,
+    args=lambda it: (make_tt(it, "x", False, 3), [VInt(P.const(3)), VTensor(net.atom_tensor(it.sp, "new", [rank_atom(it, "x", P.const(2), P.const(3)), mode_atom(it, "N", "x", P.const(2)), ONE]), "dtype:x")], {}),
+    check=raises_check)
+scn(name="permute:dims-out-of-range", func="_extras.permute", props=("C18",), must_raise=True, any_exception=True, min_returns=0,
+    args=lambda it: (None, [make_tt(it, "x", False, 3), VList([VInt(ZERO), VInt(P.const(1)), VInt(P.const(5))])], {}), check=raises_check)
+scn(name="permute:dims-repeated", func="_extras.permute", props=("C18",), must_raise=True, any_exception=True, min_returns=0,
+    args=lambda it: (None, [make_tt(it, "x", False, 3), VList([VInt(ZERO), VInt(P.const(1)), VInt(P.const(1))])], {}), check=raises_check)
+scn(name="dot:axis-out-of-range", func="_extras.dot", props=("C18",), must_raise=True, any_exception=True, min_returns=0,
+    args=lambda it: (None, [make_tt(it, "a", False, 3), make_tt(it, "b", False, 1), VList([VInt(P.const(5))])], {}), check=raises_check)
+
+
 # --------------------------------------------------------------------------- cat
 
 def _cat_expected(d, dim, names):
